@@ -16,7 +16,7 @@ SvcAll == DOMAIN SvcMeta
 
 SpecOf(j) == [type |-> j.type, fam |-> j.fam, pol |-> j.pol, v6first |-> j.v6first, cips |-> j.cips,
               share |-> j.share, ports |-> Range(j.ports), etp |-> j.etp, sel |-> j.sel,
-              reqIPs |-> j.reqIPs, reqPool |-> j.reqPool]
+              reqIPs |-> j.reqIPs, reqPool |-> j.reqPool, dep |-> j.dep, legacy |-> j.legacy]
 
 Api(o) == [s \in SvcAll |->
              IF s \in DOMAIN o.api
@@ -182,7 +182,8 @@ Fails(k) ==
   (IF C06_NoTheft(o) THEN {} ELSE {"C06.NoTheft"}) \cup
   (IF C06_Converges(o) THEN {} ELSE {"C06.Converges"}) \cup
   (IF C07_NoStarvation(o) THEN {} ELSE {"C07.NoStarvation"}) \cup
-  (IF C11_NoGhost(o) THEN {} ELSE {"C11.NoGhost"})
+  (IF C11_NoGhost(o) THEN {} ELSE {"C11.NoGhost"}) \cup
+  (IF o.panic = "" THEN {} ELSE {"C01.Panic", "C11.Panic"})
 
 Init == i = 1
 Next == i < N /\ i' = i + 1
